@@ -4,6 +4,7 @@ mod enc;
 mod gen;
 mod interval_ops;
 mod stat_ops;
+mod prop_ops;
 
 use enc::*;
 use std::io::Write;
@@ -69,6 +70,10 @@ fn gen(prop: &str, tier: &str, seed: u64) -> Vec<String> {
             interval_ops::c19_display(&mut out, &cs);
             interval_ops::c19_display(&mut out, &[-1.5f64, 0.0, 2.0, 1e21, 1e-7, f64::INFINITY]);
         }
+        "C02" => prop_ops::c02(&mut out, &mut rng, tier),
+        "C17" => prop_ops::c17(&mut out, &mut rng, tier),
+        "C03" => prop_ops::c03(&mut out, &mut rng, tier),
+        "C12" => prop_ops::c12(&mut out, &mut rng, tier),
         "C01" => stat_ops::c01(&mut out, &mut rng, tier),
         "C05" => stat_ops::c05(&mut out, &mut rng, tier),
         "C04" => stat_ops::c04(&mut out, &mut rng, tier),
